@@ -29,21 +29,24 @@ class TrioRunner(BaseRunner):
 
     def register_payload(self, payload: Callable[[], Awaitable]):
         assert self._trio_token is not None and self._submit_tasks is not None
+        # Hand the payload over without waiting for the trio thread: blocking here
+        # stalls the caller - possibly the asyncio event loop - for as long as the
+        # trio thread is busy, and deadlocks when the trio thread itself is waiting
+        # for the caller's thread (a trio payload blocked in ``execute``).
+        # ``run_sync_soon`` is threadsafe and may be used from the trio thread as well.
         try:
-            trio.from_thread.run(
-                self._submit_tasks.send, payload, trio_token=self._trio_token
-            )
-        except (trio.RunFinishedError, trio.Cancelled, trio.ClosedResourceError):
+            self._trio_token.run_sync_soon(self._submit_payload, payload)
+        except trio.RunFinishedError:
+            self._logger.warning(f"discarding payload {payload} during shutdown")
+
+    def _submit_payload(self, payload: Callable[[], Awaitable]):
+        """Queue ``payload`` for starting, from inside the trio thread"""
+        try:
+            # the channel is unbounded, submitting never blocks
+            self._submit_tasks.send_nowait(payload)
+        except trio.ClosedResourceError:
             # the submit channel is closed first when shutting down
             self._logger.warning(f"discarding payload {payload} during shutdown")
-            return
-        except RuntimeError:
-            # trio raises a bare RuntimeError when we are already in the trio thread
-            # just submit the task directly
-            try:
-                self._submit_tasks.send_nowait(payload)
-            except trio.ClosedResourceError:
-                self._logger.warning(f"discarding payload {payload} during shutdown")
 
     def run_payload(self, payload: Callable[[], Coroutine]):
         assert self._trio_token is not None and self._submit_tasks is not None
